@@ -93,6 +93,12 @@ def ops_table(mpc, T):
     op('if_else_list_cond', 3, lambda a, b, c: (lambda k: mpc.if_else(k, [a, c], [c, b]) + [k, k * c])(a < b),
        lambda a, b, c: ([a, c] if a < b else [c, b]) + [Fr(int(a < b)), c * int(a < b)], 2)
     op('sum2', 2, lambda a, b: [mpc.sum([a, b])], lambda a, b: [a + b], 0)
+    # a public start value takes part in the mark of the sum; a fixed-point number built from a raw field element carries no
+    # mark of its own (it must not count as whole)
+    op('sum_start', 2, lambda a, b: [mpc.sum([a, b], start=0.5), mpc.sum([a, b], start=2), mpc.sum([a, b], start=0.5) * 0.75],
+       lambda a, b: [a + b + Fr(1, 2), a + b + 2, (a + b + Fr(1, 2)) * Fr(3, 4)], 4)
+    op('from_field_element', 1, lambda a: (lambda c: [a + c, (a + c) * 0.75, c * 1])(T(T.field(44))),
+       lambda a: [a + Fr(11, 4), (a + Fr(11, 4)) * Fr(3, 4), Fr(11, 4)], 4)
     op('sum3', 3, lambda a, b, c: [mpc.sum([a, b, c])], lambda a, b, c: [a + b + c], 0)
     op('prod2', 2, lambda a, b: [mpc.prod([a, b])], lambda a, b: [a * b], 2)
     op('prod3', 3, lambda a, b, c: [mpc.prod([a, b, c])], lambda a, b, c: [a * b * c], 12)
